@@ -279,10 +279,10 @@ class OnDiskBitSet(BaseBitSet):
         return self._dbfile.get_byte(self._basepos + n)
 
     def _iter_bytes(self):
-        dbfile = self._dbfile
-        dbfile.seek(self._basepos)
-        for _ in xrange(self._bytecount):
-            yield dbfile.read_byte()
+        get_byte = self._dbfile.get_byte
+        basepos = self._basepos
+        for i in xrange(self._bytecount):
+            yield get_byte(basepos + i)
 
 
 class BitSet(BaseBitSet):
